@@ -54,9 +54,21 @@ def goenv():
     return env
 
 
+COQ_MEM_GB = int(os.environ.get("VERIF_COQ_MEM_GB", "16"))
+
+
+def _limit_mem():
+    import resource
+    lim = COQ_MEM_GB << 30
+    resource.setrlimit(resource.RLIMIT_AS, (lim, lim))
+
+
 def sh(cmd, cwd=None, env=None, timeout=None):
+    # every Coq process runs under an address-space limit so a runaway proof
+    # search or evaluation cannot take the machine down
+    pre = _limit_mem if any(str(c) in ("coqc", "make", "coqchk") for c in cmd[:3]) else None
     p = subprocess.run(cmd, cwd=cwd, env=env, stdout=subprocess.PIPE, stderr=subprocess.STDOUT,
-                       timeout=timeout, text=True, errors="replace")
+                       timeout=timeout, text=True, errors="replace", preexec_fn=pre)
     return p.returncode, p.stdout
 
 
@@ -233,7 +245,7 @@ def props(pid):
     txt = open(src).read()
     stripped = re.sub(r"\(\*.*?\*\)", "", txt, flags=re.S)
     names = re.findall(r"^\s*Theorem\s+([A-Za-z0-9_']+)", stripped, re.M)
-    rc, log = sh(["timeout", "1800", "coqc", "-R", COQ, "Mixin", src])
+    rc, log = sh(["timeout", "900", "coqc", "-R", COQ, "Mixin", src])
     res["log"] = log
     if rc != 0:
         m = re.search(r'line (\d+), characters', log)
@@ -297,14 +309,15 @@ def eval_cases(pid, outdir, shard=300):
             w.write("Require Import Mixin.Base.Res Mixin.Run.%s.\n" % pid)
             w.write("Definition cases : list case := [\n")
             w.write(";\n".join(shards[k]))
-            w.write("\n].\nDefinition bad := Eval vm_compute in mismatches check cases.\nPrint bad.\n")
+            w.write("\n].\nDefinition bad : list N := Eval vm_compute in mismatches check cases.\nPrint bad.\n")
         rc, out = sh(["timeout", "1800", "coqc", "-R", COQ, "Mixin", f], cwd=tmp)
         if rc != 0:
             return k, None, out
         m = re.search(r"bad\s*=\s*(.*?):\s*list N", out, re.S)
         if not m:
             return k, None, out
-        return k, [int(x) for x in re.findall(r"(\d+)%N", m.group(1))], out
+        # the list prints as [1%N; 6%N] or, if Run/Cxx.v leaves N_scope open, as [1; 6]
+        return k, [int(x) for x in re.findall(r"\d+", m.group(1))], out
 
     bad, errlog = [], ""
     with ThreadPoolExecutor(max_workers=int(os.environ.get('VERIF_JOBS', '8'))) as ex:
